@@ -169,6 +169,30 @@ func (c *Ctx) errorUses(f *ssa.Function, calleeOK func(cc *ssa.CallCommon) (stri
 					if !(nonNil == b || blockReaches(nonNil, b)) || !loop[nonNil] {
 						staysInLoop = false
 					}
+					// a further test on the non-nil side may single out one expected error (a sentinel that is
+					// handled by going round again) and return every other one: the failure is not swallowed
+					if idx := errResultIndex(g.Signature); idx >= 0 && staysInLoop {
+						// ... on a path that does not go round the loop again (through its header)
+						header := map[*ssa.BasicBlock]bool{}
+						for lb := range loop {
+							for _, p := range lb.Preds {
+								if !loop[p] {
+									header[lb] = true
+								}
+							}
+						}
+						away := reachableAvoiding(nonNil, func(x *ssa.BasicBlock) bool { return x == b || header[x] })
+						for _, r := range returnsOf(g) {
+							if !away[r.Block()] || idx >= len(r.Results) {
+								continue
+							}
+							for _, leaf := range phiLeaves(r.Results[idx]) {
+								if leaf == e {
+									staysInLoop = false
+								}
+							}
+						}
+					}
 				}
 				// and the value is what the function finally returns
 				returned := false
